@@ -446,7 +446,7 @@ func (r *wfRun) gotoBatch(specs []wfGotoSpec, mode ir.BuilderMode) {
 //   quick:    n<=2: all CFGs x all escape assignments x {defer};  n=3: CFGs with unordered target pairs x
 //             (no escape | p=&x in one block)
 //   thorough: n<=3: all CFGs x all escape assignments (n<=2 also with defer; n=3 with defer for at most
-//             one escaping block);  n=4: CFGs with unordered target pairs x (no escape | p=&x in one block)
+//             one escaping block);  n=4: CFGs with unordered target pairs x (no escape | p=&x in the third block)
 func wfGotoSpecs(thorough bool) []wfGotoSpec {
 	var all []wfGotoSpec
 	add := func(n int, ordered bool, escLevel int, plain, withDefer bool) {
@@ -466,7 +466,10 @@ func wfGotoSpecs(thorough bool) []wfGotoSpec {
 	if thorough {
 		add(3, true, 2, true, false)
 		add(3, true, 1, false, true)
-		add(4, false, 0, true, false)
+		for _, t := range wfGotoCFGs(4, false) {
+			all = append(all, wfGotoSpec{N: 4, T: t, Esc: []int{0, 0, 0, 0}})
+			all = append(all, wfGotoSpec{N: 4, T: t, Esc: []int{0, 0, 1, 0}})
+		}
 	} else {
 		add(3, false, 0, true, false)
 	}
@@ -922,6 +925,16 @@ func TestVerifC02(t *testing.T) {
 		r.replay(raw)
 		r.finish()
 		return
+	}
+	// the checker must notice deliberate corruptions before its silence means anything
+	if det, fails := wfSelfTest(); len(fails) > 0 {
+		for _, f := range fails {
+			res.Note("checker self-test: %s", f)
+		}
+		res.NotExhaustive("checker self-test failed")
+		res.Count("checker_selftest_corruptions_detected", int64(det))
+	} else {
+		res.Count("checker_selftest_corruptions_detected", int64(det))
 	}
 	res.SetBudget(vx.Budget(100*time.Second, 17*time.Minute))
 	only := os.Getenv("VERIF_C02_ONLY") // development aid: gen | corpora
